@@ -85,7 +85,7 @@ def dim_count_ok(n_term, nd, loops3, ranks):
     return False
 
 
-def builders(ctx, pfx, A, ev, loops3, ci, oi, chain_first, value_of, nd, sp):
+def builders(ctx, pfx, A, ev, loops3, ci, oi, chain_first, value_of, nd, sp, n_term=None):
     """column builders: chain/observation appended once per row with the loop index of their axis, dim builders per element"""
     lmid, linner = loops3[1], loops3[2]
     j = linner.var
@@ -105,7 +105,7 @@ def builders(ctx, pfx, A, ev, loops3, ci, oi, chain_first, value_of, nd, sp):
     if len(dk) == 1:
         lh = linner.lh[dk[0]]
         exp = T.app('upd', lh, j, T.app('post0', T.app(APPEND, index_term(lh, j), value_of(j))))
-        okd = canon_nd(linner.next[dk[0]], ctx.extra.get('_ranks', {})) is exp and dim_count_ok(linner.n, nd, loops3, ctx.extra.get('_ranks', {}))
+        okd = canon_nd(linner.next[dk[0]], ctx.extra.get('_ranks', {})) is exp and dim_count_ok(n_term if n_term is not None else linner.n, nd, loops3, ctx.extra.get('_ranks', {}))
     ctx.check(pfx + '.values.dims', A, 'dim-columns', okd, expected='dim builder j receives element j of the (chain, observation) cell, for every j < n_dims', found=show(linner.next[dk[0]])[:300] if dk else 'no builder vector', sp=linner.sp,
               why='column dim_j holds exactly the stored values')
     if not (ok_rows and len(dk) == 1):
@@ -187,10 +187,23 @@ def array_csv(ctx):
     errdisc(ctx, 'C17.csv', A, ev, sp, 'csv::Writer::flush')
 
 
-def offsets(ctx, pfx, A, X, i0, i1, s1, s2, found_slice, sp):
+def flat_row(X, term, var):
+    """the flat buffer X read at `off + var` inside term (a row `X[off..off + n]` walked by var, however the row is sliced off:
+    range indexing, split_at, a cursor): returns off, or None when X is not read that way exactly once"""
+    offs = set()
+    for x in T.atoms(term, lambda x: T.is_app(x, 'index') and x[2][0] is X and not T.is_app(x[2][1], 'range')):
+        if not any(y is var for y in T.subterms(x[2][1])):
+            continue
+        off = T.sub(x[2][1], var)
+        if any(y is var for y in T.subterms(off)):
+            return None
+        offs.add(off)
+    return list(offs)[0] if len(offs) == 1 else None
+
+
+def offsets(ctx, pfx, A, X, i0, i1, s1, s2, found_n, found_off, sp):
     off = T.add(T.mul(T.mul(i0, s1), s2), T.mul(i1, s2))
-    exp = index_term(X, T.app('range', off, T.add(off, s2)))
-    ctx.eq(pfx + '.offset', A, 'offset', found_slice, exp, sp=sp, why='row-major flat offset of cell (i0, i1) in an [s0, s1, s2] tensor is i0*s1*s2 + i1*s2; the row is the next s2 values')
+    ctx.eq(pfx + '.offset', A, 'offset', T.tup(found_off, found_n), T.tup(off, s2), sp=sp, why='row-major flat offset of cell (i0, i1) in an [s0, s1, s2] tensor is i0*s1*s2 + i1*s2; the row is the next s2 values')
 
 
 def tensor_csv(ctx):
@@ -217,17 +230,18 @@ def tensor_csv(ctx):
         okl = t.n is s0 and m.n is s1 and ev.t(t.elem) is ci and ev.t(m.elem) is oi
         rec = wr[1].args[1]
         okrow = False
-        sl = None
-        if T.is_app(rec, 'concat') and rec[2][0] is T.app('array', T.app('to_string', ci), T.app('to_string', oi)) and T.is_app(rec[2][1], 'comp'):
-            slices = T.atoms(rec[2][1], lambda x: T.is_app(x, 'index') and x[2][0] is X and T.is_app(x[2][1], 'range'))
-            if len(slices) == 1:
-                sl = slices[0]
-                j = S('k#j')
-                okrow = rec[2][1] is mk_comp(T.app('len', sl), j, T.app('to_string', index_term(sl, j)))
-        ctx.check('C17.csv_tensor.values', A, 'values', okl and okrow, expected='for chain in 0..s0, obs in 0..s1: [chain, obs, every value of the row slice]', found=show(rec)[:300], sp=wr[1].sp,
+        off = None
+        if T.is_app(rec, 'concat') and rec[2][0] is T.app('array', T.app('to_string', ci), T.app('to_string', oi)) and T.is_app(strip_eff(rec[2][1]), 'comp'):
+            vals = strip_eff(rec[2][1])
+            j = S('k#j')
+            off = flat_row(X, index_term(vals, j), j)
+            if off is not None:
+                okrow = vals is mk_comp(vals[2][0], j, T.app('to_string', index_term(X, T.add(off, j))))
+        ctx.check('C17.csv_tensor.values', A, 'values', okl and okrow, expected='for chain in 0..s0, obs in 0..s1: [chain, obs, every value of the row of the flat buffer, in order]', found=show(rec)[:300], sp=wr[1].sp,
                   why='value sequence agrees with the header position by position; loops cover the documented [chain, observation, dim] axes')
-        if sl is not None:
-            offsets(ctx, 'C17.csv_tensor', A, X, ci, oi, s1, s2, sl, wr[1].sp)
+        if off is not None:
+            nvals = settle_monus(T.subst(vals[2][0], {T.app('len', X): T.mul(T.mul(s0, s1), s2)}), {t.var: s0, m.var: s1})
+            offsets(ctx, 'C17.csv_tensor', A, X, ci, oi, s1, s2, nvals, off, wr[1].sp)
         else:
             ctx.unknown('C17.csv_tensor.offset', A, 'offset', why='row slice not identified', sp=sp)
     errdisc(ctx, 'C17.csv_tensor', A, ev, sp, 'csv::Writer::flush')
@@ -264,6 +278,17 @@ def array_arrow_like(ctx, path, pfx, closer):
     errdisc(ctx, pfx, A, ev, sp, closer)
 
 
+def canon_row_count(n, il):
+    """trip count of the dim loop as the number of row values read: a loop that walks the builder vector and the row in lockstep
+    runs min(len(builders), row length) times -- the row length is the other operand (the builder count is decided by dim_count_ok)"""
+    if T.is_app(n, 'min') and len(n[2]) == 2:
+        heads = [T.app('len', h) for l_ in (il if isinstance(il, tuple) else (il,)) for h in l_.lh.values()]
+        rest = [a for a in n[2] if a not in heads]
+        if len(rest) == 1:
+            return rest[0]
+    return n
+
+
 def canon_nd_n(n, data):
     return n
 
@@ -293,13 +318,16 @@ def tensor_parquet(ctx):
         il = inner[0]
         okloops = t.n is s0 and m.n is s1 and ev.t(t.elem) is oi and ev.t(m.elem) is ci
         ctx.check(pfx + '.values.loops', A, 'loops', okloops, expected='observation loop over axis 0 (s0), chain loop over axis 1 (s1)', found='n=%s / %s' % (show(t.n), show(m.n)), sp=t.sp, why='documented axis order of the tensor variant')
-        # the row slice of the flat buffer: the range the dim loop reads its values from
-        is_slice = lambda x: T.is_app(x, 'index') and x[2][0] is X and T.is_app(x[2][1], 'range')
-        slices = list({x for t_ in [il.n] + [v for v in il.next.values() if isinstance(v, T.Tm)] for x in T.atoms(t_, is_slice)})
-        if len(slices) == 1:
-            sl = slices[0]
-            offsets(ctx, pfx, A, X, oi, ci, s1, s2, sl, il.sp)
-            builders(ctx, pfx, A, ev, (t, m, il), ci, oi, False, lambda j: index_term(sl, j), T.app('len', sl), sp)
+        # the row of the flat buffer the dim loop reads its values from: X[off + j]
+        offs = {flat_row(X, v, il.var) for v in il.next.values() if isinstance(v, T.Tm) and any(y is X for y in T.subterms(v))}
+        if len(offs) == 1 and None not in offs:
+            off = list(offs)[0]
+            # the flat buffer holds s0*s1*s2 values (the tensor's data): what is left of it at cell (i0, i1) is decided with i0 < s0, i1 < s1
+            nrow = settle_monus(T.subst(il.n, {T.app('len', X): T.mul(T.mul(s0, s1), s2)}), {t.var: s0, m.var: s1})
+            nfull = nrow
+            nrow = canon_row_count(nrow, (t, m, il))
+            offsets(ctx, pfx, A, X, oi, ci, s1, s2, nrow, off, il.sp)
+            builders(ctx, pfx, A, ev, (t, m, il), ci, oi, False, lambda j: index_term(X, T.add(off, j)), s2, sp, n_term=nfull)
         else:
             ctx.unknown(pfx + '.offset', A, 'offset', why='row slice not identified', sp=sp)
     widening(ctx, pfx, A, b)
